@@ -48,6 +48,28 @@ else:
         pq.write_table(pa.Table.from_pylist(tablekit.rows(2, start=900, tag="pre"), schema=sch), os.path.join(path, rel))
         t.append_data([DataFile(file_path="/" + rel, file_format=FileFormat.PARQUET, partition_values={}, record_count=2,
                                 file_size_in_bytes=os.path.getsize(os.path.join(path, rel)))])
+    elif op == "append-prebuilt-requeued":
+        # the same, but the first append_files of the transaction is REJECTED (the file is not there yet); the caller then writes the
+        # file (plain pyarrow write) and queues it again in the SAME transaction
+        import os
+        import pyarrow as pa
+        import pyarrow.parquet as pq
+        from datashard.data_structures import DataFile, FileFormat
+        rel = "data/region=us/part-0.parquet"
+        sch = t.file_manager.data_file_manager.create_arrow_schema(tablekit.schema())
+        df = DataFile(file_path="/" + rel, file_format=FileFormat.PARQUET, partition_values={}, record_count=2, file_size_in_bytes=1)
+        tx = t.new_transaction().begin()
+        try:
+            tx.append_files([df])
+            raise SystemExit("append_files accepted a missing file")
+        except FileNotFoundError:
+            pass
+        os.makedirs(os.path.join(path, "data/region=us"), exist_ok=True)
+        pq.write_table(pa.Table.from_pylist(tablekit.rows(2, start=950, tag="pre2"), schema=sch), os.path.join(path, rel))
+        df = DataFile(file_path="/" + rel, file_format=FileFormat.PARQUET, partition_values={}, record_count=2,
+                      file_size_in_bytes=os.path.getsize(os.path.join(path, rel)))
+        tx.append_files([df])
+        tx.commit()
     elif op == "shared-overlap":
         # two threads committing through ONE Table object: thread A is held just before it writes its manifest list (its data file and
         # manifest are written), thread B commits completely meanwhile; the trace up to the marker is judged against B's version
